@@ -193,6 +193,16 @@ func main() {
 		}
 	}
 	x.obls = nil
+	// lemmas over the specification functions: the induction step of every lemma tagged with the property
+	// (all of them when no property is selected) is an obligation of the run
+	loadPrelude()
+	lemmaFlag := strings.TrimPrefix(*fnFlag, "lemma:")
+	for _, lm := range preludeLemmas {
+		if (*fnFlag == "" && (*prop == "" || hasProp(lm.Props, *prop))) || (*fnFlag != "" && (lemmaFlag == lm.Name || *fnFlag == "lemmas")) {
+			obls = append(obls, lemmaObligation(lm))
+			rep.Functions = append(rep.Functions, "lemma:"+lm.Name)
+		}
+	}
 	// filter by property: explicit clause tags restrict; function-level tags are inherited by the closure
 	var sel []*Oblig
 	for _, o := range obls {
@@ -276,6 +286,9 @@ func main() {
 	}
 	rep.NamedObls = len(byName)
 	for _, f := range rep.Functions {
+		if strings.HasPrefix(f, "lemma:") {
+			continue
+		}
 		rep.Feasible[f] = feasibleReturn[f]
 		hadErr := false
 		for _, e := range x.errs {
